@@ -193,6 +193,9 @@ where
 pub struct Histo(Mutex<BTreeMap<String, u64>>);
 
 impl Histo {
+    pub const fn new() -> Self {
+        Self(Mutex::new(BTreeMap::new()))
+    }
     pub fn add(&self, k: &str, n: u64) {
         *self.0.lock().unwrap().entry(k.to_string()).or_insert(0) += n;
     }
